@@ -67,6 +67,9 @@ type Faults interface {
 	// WatchRecv is consulted before the client receives message idx (0-based, the "ready" message is
 	// idx 0) of Watch stream n; a non-nil error breaks the stream with that error.
 	WatchRecv(n, idx int) error
+	// WatchLost is consulted after message idx of Watch stream n left the server side: a non-nil error
+	// means the message is lost in transit and the stream breaks with that error.
+	WatchLost(n, idx int) error
 }
 
 // Client implements v1alpha1.StateClient on top of a StateServer.
@@ -181,6 +184,7 @@ type stream[T any, PT interface {
 	err    error
 	recvN  int
 	onRecv func(idx int) error
+	onLost func(idx int) error
 	broken error
 }
 
@@ -222,6 +226,13 @@ func (c clientStream[T, PT]) Recv() (PT, error) {
 	switch vrt.Select(false, rc, vrt.RecvCase((<-chan struct{})(s.done)), vrt.RecvCase(s.ctx.Done())) {
 	case 0:
 		s.recvN++
+		if s.onLost != nil {
+			if err := s.onLost(s.recvN - 1); err != nil {
+				s.broken = err
+				s.cancel()
+				return nil, err
+			}
+		}
 		return rc.Value, nil
 	case 1:
 		// handler finished: deliver what is still buffered first
@@ -272,6 +283,7 @@ func (c *Client) Watch(ctx context.Context, in *v1alpha1.WatchRequest, _ ...grpc
 	s := &stream[v1alpha1.WatchResponse, *v1alpha1.WatchResponse]{ctx: sctx, cancel: cancel, ch: make(chan *v1alpha1.WatchResponse, c.StreamBuf), done: make(chan struct{})}
 	if c.Faults != nil {
 		s.onRecv = func(idx int) error { return c.Faults.WatchRecv(n, idx) }
+		s.onLost = func(idx int) error { return c.Faults.WatchLost(n, idx) }
 	}
 	req := roundTrip(in)
 	vrt.GoNamed("lb:watch-handler", func() {
